@@ -28,16 +28,19 @@ def witnesses(tier, seed):
         # matrix products, with every assignment operator and with the destination on the right-hand side
         for (M, K, N) in [(2, 2, 2), (3, 3, 3), (4, 4, 4), (3, 4, 5), (5, 3, 2), (8, 8, 8), (2, 7, 9)] + ([] if quick else [(5, 5, 5), (9, 4, 3), (1, 6, 4), (6, 1, 6), (16, 3, 5)]):
             P = [('a', [M, K]), ('b', [K, N]), ('d', [M, N])]
+            # inner extent 1: the compound forms go through the gemm kernel, which starts from a zero accumulator; 0 + a*b and a*b differ in
+            # the sign of a zero result only, which 'equal within rounding' does not distinguish (thorough-tier false alarm, DESIGN 11.4)
+            md = 'ALG' if K == 1 else 'EXACT'
             for op in ASG:
-                W.append(pair(t, 'matmul.%s.%dx%dx%d' % (ASG.index(op), M, K, N), P, 'c %s a %% b;' % op, '%s t = matmul(a,b); c %s t;' % (T([M, N]), op), [M, N]))
-            W.append(pair(t, 'matmul.plus.%dx%dx%d' % (M, K, N), P, 'c = a % b + d;', '%s t = matmul(a,b); c = t + d;' % T([M, N]), [M, N]))
-            W.append(pair(t, 'matmul.alias_add.%dx%dx%d' % (M, K, N), P, 'c = c + a % b;', '%s t = matmul(a,b); c = c + t;' % T([M, N]), [M, N]))
+                W.append(pair(t, 'matmul.%s.%dx%dx%d' % (ASG.index(op), M, K, N), P, 'c %s a %% b;' % op, '%s t = matmul(a,b); c %s t;' % (T([M, N]), op), [M, N], mode=md))
+            W.append(pair(t, 'matmul.plus.%dx%dx%d' % (M, K, N), P, 'c = a % b + d;', '%s t = matmul(a,b); c = t + d;' % T([M, N]), [M, N], mode=md))
+            W.append(pair(t, 'matmul.alias_add.%dx%dx%d' % (M, K, N), P, 'c = c + a % b;', '%s t = matmul(a,b); c = c + t;' % T([M, N]), [M, N], mode=md))
             W.append(pair(t, 'matmul.alias_mul.%dx%dx%d' % (M, K, N), P, 'c += (a % b) * c - d;', '%s t = matmul(a,b); c += t * c - d;' % T([M, N]), [M, N], mode='ALG'))   # the staged assignment adds and subtracts the terms separately
-            W.append(pair(t, 'matmul.scaled.%dx%dx%d' % (M, K, N), P, 'c -= (a % b) * d;', '%s t = matmul(a,b); c -= t * d;' % T([M, N]), [M, N]))
-            W.append(pair(t, 'trans.lhs.%dx%dx%d' % (M, K, N), [('a', [K, M]), ('b', [K, N])], 'c = trans(a) % b;', '%s ta = transpose(a); %s t = matmul(ta,b); c = t;' % (T([M, K]), T([M, N])), [M, N]))
-            W.append(pair(t, 'trans.rhs.%dx%dx%d' % (M, K, N), [('a', [M, K]), ('b', [N, K])], 'c += a % trans(b);', '%s tb = transpose(b); %s t = matmul(a,tb); c += t;' % (T([K, N]), T([M, N])), [M, N]))
-            W.append(pair(t, 'trans.of_product.%dx%dx%d' % (M, K, N), [('a', [M, K]), ('b', [K, N])], 'c = trans(a % b);', '%s t = matmul(a,b); c = transpose(t);' % T([M, N]), [N, M]))
-            W.append(pair(t, 'matmul.of_sums.%dx%dx%d' % (M, K, N), [('a', [M, K]), ('a2', [M, K]), ('b', [K, N])], 'c = (a + a2) % b;', '%s s = a + a2; c = matmul(s,b);' % T([M, K]), [M, N]))
+            W.append(pair(t, 'matmul.scaled.%dx%dx%d' % (M, K, N), P, 'c -= (a % b) * d;', '%s t = matmul(a,b); c -= t * d;' % T([M, N]), [M, N], mode=md))
+            W.append(pair(t, 'trans.lhs.%dx%dx%d' % (M, K, N), [('a', [K, M]), ('b', [K, N])], 'c = trans(a) % b;', '%s ta = transpose(a); %s t = matmul(ta,b); c = t;' % (T([M, K]), T([M, N])), [M, N], mode=md))
+            W.append(pair(t, 'trans.rhs.%dx%dx%d' % (M, K, N), [('a', [M, K]), ('b', [N, K])], 'c += a % trans(b);', '%s tb = transpose(b); %s t = matmul(a,tb); c += t;' % (T([K, N]), T([M, N])), [M, N], mode=md))
+            W.append(pair(t, 'trans.of_product.%dx%dx%d' % (M, K, N), [('a', [M, K]), ('b', [K, N])], 'c = trans(a % b);', '%s t = matmul(a,b); c = transpose(t);' % T([M, N]), [N, M], mode=md))
+            W.append(pair(t, 'matmul.of_sums.%dx%dx%d' % (M, K, N), [('a', [M, K]), ('a2', [M, K]), ('b', [K, N])], 'c = (a + a2) % b;', '%s s = a + a2; c = matmul(s,b);' % T([M, K]), [M, N], mode=md))
         # square-matrix functions with closed forms (no data-dependent control): inverse, determinant, cofactor, adjoint, trace, norm
         for n in (2, 3, 4):
             P = [('a', [n, n]), ('b', [n, n])]
